@@ -338,6 +338,8 @@ class Interp:
                 return fn(self, f, *args, **kwargs)
         if callable(f) and getattr(f, "_pyvc_model", False):
             return f(self, *args, **kwargs)
+        if isinstance(f, ExcClass):
+            return ExcValue(f.name, args[0] if args and isinstance(args[0], str) else "")      # ValueError(anything): an exception instance
         raise Unsupported("call of %r" % (f,))
 
     def instantiate(self, c, args, kwargs):
